@@ -619,6 +619,33 @@ theorem compileMof_failed_is_identity (s : State) (ns : Name) (ps : List Prod) :
   unfold compileMof
   exact compileMofItems_failed_is_identity s ns _
 
+/-- compile_schema_classes with a list of schema pragma files: atomic for a failure in ANY file (class not listed,
+    namespace, any production of any class file) - the outer snapshot also undoes what the earlier files compiled -/
+theorem compileSchemaClasses_failed_is_identity (s : State) (ns : Name) (files : List SchemaFile) :
+    AtomicAt (compileSchemaClasses ns files) s := by
+  unfold compileSchemaClasses
+  exact atomicAt_withRollback _ _
+
+/-- each pragma file by itself is atomic (ValueError before compiling, or compile_mof_string's own restore) -/
+theorem compileSchemaFile_failed_is_identity (s : State) (ns : Name) (f : SchemaFile) :
+    AtomicAt (compileSchemaFile ns f) s := by
+  cases f with
+  | notListed => exact atomicAt_raise _ _
+  | items is => exact compileMofItems_failed_is_identity s ns is
+
+/-- what holds with the per-file restore only: a failure in the FIRST pragma file changes nothing -/
+theorem compileSchemaClasses_per_file_restore_partial (s : State) (ns : Name) (f : SchemaFile)
+    (rest : List SchemaFile) (e : PyExc) (hfirst : (compileSchemaFile ns f s).2 = .error e) :
+    (compileSchemaClassesPerFileRestore ns (f :: rest) s).1 = s := by
+  have ha := compileSchemaFile_failed_is_identity s ns f e hfirst
+  unfold compileSchemaClassesPerFileRestore forM_
+  rw [bind_apply]
+  generalize compileSchemaFile ns f s = ro at ha hfirst
+  obtain ⟨s2, r2⟩ := ro
+  simp only at ha hfirst
+  subst hfirst
+  exact ha
+
 /-- the item fold distributes over concatenation, threading the target namespace -/
 theorem mofItems_append (b : List MofItem) : ∀ (a : List MofItem) (ns : Name),
     mofItems ns (a ++ b) = mofItems ns a >>= fun ns' => mofItems ns' b
@@ -662,6 +689,7 @@ theorem failed_step_is_identity (s : State) (op : Op) : (step s op).2.isSome →
       exact addObject_failed_is_identity s ns o
     | compileMof ns ps => exact compileMof_failed_is_identity s ns ps
     | compileMofItems ns items => exact compileMofItems_failed_is_identity s ns items
+    | compileSchemaClasses ns files => exact compileSchemaClasses_failed_is_identity s ns files
   intro hs
   unfold step at hs ⊢
   unfold AtomicAt at h
@@ -830,6 +858,14 @@ theorem compile_items_without_restore_not_atomic_two_namespaces :
       [.prod (.cls wClassOk), .pragmaNamespace wNsB, .include [.prod (.cls wClassOk2)], .prod (.cls wClassBad)]) wS0b
       = true := by decide +kernel
 
+/-- with only the per-file restore (snapshot inside the loop) a failure in the SECOND pragma file keeps what the
+    first one compiled: class not listed (ValueError) and a class file that does not compile -/
+theorem compileSchemaClasses_per_file_restore_not_atomic :
+    failsChanged (compileSchemaClassesPerFileRestore wNs [.items [.prod (.cls wClassOk)], .notListed]) wS0 = true ∧
+    failsChanged (compileSchemaClassesPerFileRestore wNs
+      [.items [.prod (.cls wClassOk)], .items [.prod (.cls wClassOk2), .prod (.cls wClassBad)]]) wS0 = true := by
+  decide +kernel
+
 /-- what DID hold for the original fold: a batch whose FIRST element is the rejected one changes nothing
     (this is all the existing tests looked at) -/
 theorem batch_atomic_partial_objects (s : State) (ns : Name) (o : Obj) (rest : List Obj) (e : PyExc)
@@ -969,6 +1005,11 @@ example : ((step wS0b (.compileMofItems wNs
 -- a refusing user-defined provider: DeleteClass raises what the provider raised and nothing is deleted
 example : step wS3 (.deleteClass wNs "P".toList) = (wS3, some .valueError) := by decide +kernel
 example : (step { wS3 with userProvs := [] } (.deleteClass wNs "P".toList)).2 = none := by decide +kernel
+example : step wS0 (.compileSchemaClasses wNs [.items [.prod (.cls wClassOk)], .notListed]) = (wS0, some .valueError) := by
+  decide +kernel
+example : (step wS0 (.compileSchemaClasses wNs [.items [.prod (.cls wClassOk)], .items [.prod (.cls wClassOk2)]])).2 = none ∧
+    ((step wS0 (.compileSchemaClasses wNs [.items [.prod (.cls wClassOk)], .items [.prod (.cls wClassOk2)]])).1.nss.map
+      (fun r => r.classes.length)) = [2] := by decide +kernel
 -- the namespace provider: a rejected CreateInstance leaves no namespace behind; an accepted one adds namespace and instance
 example : step wS2 (.createInstance wInterop wNsInstBad) = (wS2, some (.cimError 4)) := by decide +kernel
 example : (step wS2 (.createInstance wInterop wNsInstOk)).2 = none ∧
